@@ -491,7 +491,7 @@ def run(ctx):
     tier, seed = ctx["tier"], ctx["seed"]
     wide = 4 if ctx.get("widened") else 1
     n_random = C.Budget(tier, 550, 4500).n * wide
-    deadline = t0 + (420 if tier == "thorough" else 50) * (2.0 if wide > 1 else 1)
+    deadline = t0 + (420 if tier == "thorough" else 70) * (1.5 if wide > 1 else 1)
     run_ = CC.Runner(res, "C06", ctx, oracle)
 
     for name, probes, ops, _ in CC.corpus_histories("C06"):
@@ -576,6 +576,9 @@ def run(ctx):
                 % (n_sys, n_re, [(p[0], len(p[1]), len(p[2]), p[3]) for p in plans], n_exh, "complete" if complete else "cut short", done))
     res.rule = res.rule.replace("@NWIRE@", str(n_wire))
     res.sample({"reaction_scripts": REACT_SCRIPTS})
+    if any("cut short" in n or "stopped after" in n for n in res.notes):
+        # a stream was cut by the wall-clock budget (a loaded machine): the run is not the complete plan; the note says which stream
+        res.exhaustive = False
     res.count("wall_s", int(time.time() - t0))
     return res
 
